@@ -19,13 +19,18 @@ pub fn run(seed: u64, tier: &str, out: &mut Out) {
             ops.push(match rng.below(3) {
                 0 => B::Tc(*rng.pick(&[0usize, 1, 2, 3, 30])),
                 1 => B::Ts(*rng.pick(&[0usize, 1, 2, 3, 30])),
-                _ => { let len = *rng.pick(&[0usize, 1, 2, 3, 5, 10]); let mixed = rng.chance(1, 4); let w = *rng.pick(&[0u8, 1, 1, 2]); B::Pc((0..len).map(|i| if mixed && i == len / 2 { (w + 1) % 3 } else { w }).collect()) }
+                _ => { let len = *rng.pick(&[0usize, 1, 2, 3, 4, 5, 10]); let mixed = rng.chance(1, 3); let w = *rng.pick(&[0u8, 1, 1, 2]);
+                       let odd = if len > 0 { rng.below(len as u64) as usize } else { 0 };   // the character of another width can sit anywhere, also last
+                       B::Pc((0..len).map(|i| if mixed && i == odd { (w + 1 + rng.below(2) as u8) % 3 } else { w }).collect()) }
             });
         }
         let case = format!("STYLE FX={fx} ; {}", ops.iter().map(|o| match o { B::Tc(n) => format!("tc {n}"), B::Ts(n) => format!("ts {n}"), B::Pc(ws) => format!("pc {}", if ws.is_empty() { "-".into() } else { ws.iter().map(|w| w.to_string()).collect::<Vec<_>>().join(",") }) }).collect::<Vec<_>>().join(" ; "));
         let ops2 = ops.clone();
+        // the bar state a style must cope with includes the texts: wide, combining and coloured ones in truncating fields
+        let tpl: &'static str = *rng.pick(&["{spinner} {bar:20} {wide_bar}", "{spinner} {bar:20} {wide_bar}", "{spinner} {wide_msg} {bar:7}", "{prefix:3!} {msg:>4!} {msg:^5!} {bar:0}", "{wide_msg:^} {pos}/{len}"]);
+        let msg: String = match rng.below(5) { 0 => String::new(), 1 => "plain text".into(), 2 => "日本語のメッセージです長い".into(), 3 => "e\u{301}e\u{301}e\u{301}e\u{301}e\u{301}e\u{301}".into(), _ => "\x1b[32mgreen\x1b[0m and more".into() };
         let built = catch_unwind(move || {
-            let mut s = ProgressStyle::with_template("{spinner} {bar:20} {wide_bar}").unwrap();
+            let mut s = ProgressStyle::with_template(tpl).unwrap();
             for o in &ops2 { s = match o {
                 B::Tc(n) => { let t: String = (0..*n).map(|i| cluster(1, i)).collect(); s.tick_chars(&t) }
                 B::Ts(n) => { let v: Vec<String> = (0..*n).map(|i| format!("t{i}")).collect(); let r: Vec<&str> = v.iter().map(|x| x.as_str()).collect(); s.tick_strings(&r) }
@@ -33,8 +38,11 @@ pub fn run(seed: u64, tier: &str, out: &mut Out) {
             }; }
             s
         });
+        // what the statement says must be rejected when the style is built
+        let must_reject = ops.iter().any(|o| match o { B::Tc(n) | B::Ts(n) => *n < 2, B::Pc(ws) => ws.len() < 2 || ws.iter().any(|w| *w != ws[0]) });
         let (obs, verdict) = match built {
             Err(_) => ("rejected".to_string(), "ok".to_string()),
+            Ok(_) if must_reject => ("accepted ok".to_string(), format!("FAIL not-rejected-early {}", case)),
             Ok(style) => {
                 let mut panicked = false;
                 for (ticks, finish) in [(0u64, false), (1, false), (3, false), (31, false), (0, true)] {
@@ -43,7 +51,7 @@ pub fn run(seed: u64, tier: &str, out: &mut Out) {
                         let r = catch_unwind(AssertUnwindSafe(|| {
                             let rec = Recorder::new(5, w, false);
                             let pb = ProgressBar::with_draw_target(Some(10), ProgressDrawTarget::term_like(Box::new(rec)));
-                            pb.set_style(st); pb.set_position(3);
+                            pb.set_style(st); pb.set_position(3); pb.set_message(msg.clone()); pb.set_prefix(msg.clone());
                             for _ in 0..ticks { pb.tick(); }
                             if finish { pb.finish(); } else { pb.tick(); }
                             std::mem::forget(pb);
